@@ -48,10 +48,10 @@ type c12Case struct {
 
 // texts whose END matches the named pattern (and which match no other pattern in the pool before their end)
 var c12Resp = map[string]string{
-	"password_pattern": "Enter the enable password: ",
-	"username_pattern": "please log in\nUsername: ",
+	"password_pattern":                         "Enter the enable password: ",
+	"username_pattern":                         "please log in\nUsername: ",
 	"pfesc_cisco_iosxe_default_privilege_exec": "\nPassword: ",
-	"prompt_pattern":   "\nrouter#",
+	"prompt_pattern":                           "\nrouter#",
 }
 
 func genC12(r *sim.Rng, i int) *c12Case {
